@@ -171,7 +171,8 @@ func (r *replication) replicate(c *conn, req *appendReq) error {
 		)
 		go func() {
 			defer func() {
-				close(resultCh)
+				// note: report the panic, before closing resultCh
+				defer close(resultCh)
 				if v := recover(); v != nil {
 					select {
 					case <-stopCh:
